@@ -10,7 +10,7 @@ TECH = 'CBMC 6.11 code contracts (goto-instrument --dfcc) on functions extracted
 
 # id -> (decided text, not-decided list, design ref)
 P = {
- 'C01': ('Proof (contracts, all inputs) of the per-edge kernels the region semantics rests on: IsContributingClosed == boundary test of OP(cliptype, FILLED(fillrule, w_subj), FILLED(fillrule, w_clip)) for all 5x4 combinations and all winding numbers; the winding-count update of IntersectEdges preserves the face-winding representation; AddNewIntersectNode keeps the vertex in the scanbeam and on an edge; SetWindCountForClosedPathEdge (bounded AEL) establishes the representation; ring surgery (AddOutPt, JoinOutrecPaths, AddLocalMaxPoly, SwapOutrecs, DuplicateOp) keeps the OutPt rings consistent; UpdateEdgeIntoAEL advances an edge to the next vertex in its winding direction and schedules a scanline at its top; the join pairing is maintained by Split/CheckJoinLeft/CheckJoinRight.',
+ 'C01': ('Proof (contracts, all inputs) of the per-edge kernels the region semantics rests on: IsContributingClosed == boundary test of OP(cliptype, FILLED(fillrule, w_subj), FILLED(fillrule, w_clip)) for all 5x4 combinations and all winding numbers; the winding-count update of IntersectEdges preserves the face-winding representation; AddNewIntersectNode keeps the vertex in the scanbeam and on an edge; SetWindCountForClosedPathEdge (bounded AEL) establishes the representation; ring surgery (AddOutPt, JoinOutrecPaths, AddLocalMaxPoly, SwapOutrecs, DuplicateOp) keeps the OutPt rings consistent; UpdateEdgeIntoAEL advances an edge to the next vertex in its winding direction and schedules a scanline at its top; the join pairing is maintained by Split/CheckJoinLeft/CheckJoinRight; IsValidAelOrder orders edges that are apart by x alone; bounded DoTopOfScanbeam and InsertLeftEdge.',
          ['AEL ordering, intersection ordering, horizontals, ring assembly, intersection-point accuracy (both precision builds): invariants over unbounded linked structures / floating point'], '5 C01'),
  'C03': ('Proof of the structural predicates (PtsReallyClose, IsVerySmallTriangle, IsValidClosedPath) and of DoSplitOp (the splice creates no equal neighbours; loop-free, rings of 4/5/6); bounded checks of BuildPath64 (>=3 vertices, no equal neighbours incl. last/first) and CleanCollinear (no removable vertex left, over abstract geometry).',
          ['FixSelfIntersects loop, bounding-box clause, all geometric clauses (spikes beyond CleanCollinear, crossings, orientation vs nesting, Union idempotence)'], '5 C03'),
@@ -32,7 +32,7 @@ P = {
          ['"Execute returns true for every input" (needs a global sweep invariant)'], '5 C11'),
  'C12': ('Proof that CleanUp/Clear reset every scratch member, that RectClip64::Execute starts every path with empty scratch state, the DoGroupOffset per-path invariant, and AddReuseableData (copies every local minimum, container untouched).',
          ['bit-identical reruns, arbitrary call sequences, reusable-container sharing'], '5 C12'),
- 'C13': ('Proof that LocMinSorter is the strict weak order (y desc, x asc) and IntersectListSort its counterpart; TopX/GetDx free of integer overflow; bounded check that AddPaths_ flags exactly the cyclic local extrema independent of start vertex, duplicates and closing vertex.',
+ 'C13': ('Proof that LocMinSorter is the strict weak order (y desc, x asc) and IntersectListSort its counterpart; IsValidAelOrder orders two edges that are apart at the scanline by x alone; TopX/GetDx free of integer overflow; bounded check that AddPaths_ flags exactly the cyclic local extrema independent of start vertex, duplicates and closing vertex.',
          ['order-independence of the sweep, all algebraic identities and transformations'], '5 C13'),
  'C14': ("Every assigns clause of every function under contract names only parameters and object members (CBMC checks every write against it, so a static scratch variable fails an assigns obligation); supporting static scan (nm on the freshly built objects plus a translation unit instantiating the header-only API and the C export layer, with and without USINGZ): every symbol in a writable section is std::__ioinit, declared const in the sources, or a string-literal pointer that is never written (known finding F12: the USINGZ export layer's callback globals).",
          ['interleavings (CBMC has no threads); nothing here explores schedules'], '5 C14'),
